@@ -3,12 +3,10 @@ import MythVerif.Proofs.WsQueueTsoTac
 namespace MythVerif.WsqTso
 open MythVerif.Wsq
 
-set_option maxHeartbeats 4000000 in
 theorem f_O_cache_po6 (s : St) (x0) (rest : List Sto) (r) : Inv s → s.opc = .po6 r →
     s.bufO = .cache x0 :: rest → Inv (applySto { s with bufO := rest } (.cache x0)) := by
   intro h hpc hb
   simp only [applySto]
-  cases h; simp only [hpc, ownerLocked, carry, resetting, ownerFlight] at *
-  tso_finish3
+  tso_fastO h hpc [po6]
 
 end MythVerif.WsqTso
